@@ -122,6 +122,74 @@ class Analysis:
                 todo.extend(m for m, _l in n.succs)
         return out
 
+    def normalised(self, func, keep=()):
+        """View of func with simple private helpers expanded and alias
+        locals of self attributes substituted (see sa/inline.py). `keep`:
+        names of helpers the asking rule treats as units (not expanded)."""
+        from .inline import normalised
+        return normalised(self, func, keep)
+
+    def whole_map(self, func, e, depth=0):
+        """If expression `e` of func is the element-wise image of ONE iterable
+        with nothing filtered out - a comprehension without `if`, a local list
+        filled by an unconditional append in a loop that is never left early,
+        or a helper returning such a thing over its parameter - return
+        (iterable expression, element expression, loop variable text), else
+        None."""
+        if isinstance(e, (ast.ListComp, ast.GeneratorExp)) and \
+                len(e.generators) == 1 and not e.generators[0].ifs:
+            g = e.generators[0]
+            return g.iter, e.elt, norm(g.target)
+        if isinstance(e, ast.Name) and depth < 3:
+            inits, appends, others = [], [], []
+            for n in walk_own(func.node):
+                if isinstance(n, ast.Assign) and any(
+                        isinstance(t, ast.Name) and t.id == e.id for t in n.targets):
+                    if (isinstance(n.value, ast.List) and not n.value.elts) or (
+                            isinstance(n.value, ast.Call)
+                            and norm(n.value.func) == 'list' and not n.value.args):
+                        inits.append(n)
+                    else:
+                        others.append(n)
+                elif isinstance(n, ast.Call) and isinstance(n.func, ast.Attribute) \
+                        and isinstance(n.func.value, ast.Name) \
+                        and n.func.value.id == e.id:
+                    if n.func.attr == 'append' and len(n.args) == 1:
+                        appends.append(n)
+                    elif n.func.attr in ('extend', 'insert', 'pop', 'remove',
+                                         'clear', 'sort', 'reverse'):
+                        others.append(n)
+            if len(inits) == 1 and len(appends) == 1 and not others:
+                cfg = self.cfg(func)
+                an = [n for n in cfg.nodes if any(c is appends[0] for c in n.calls())]
+                loops = [n for n in cfg.nodes if n.kind == 'for'
+                         and any(x is appends[0] for x in ast.walk(n.ast))]
+                if len(an) == 1 and len(loops) == 1:
+                    lp = loops[0]
+                    body = [m for m, lab in lp.succs if lab is True]
+                    skip = cfg.find_path(body, lambda n: n is lp, avoid=an)
+                    early = [n for n in cfg.reachable_from(body, avoid=[lp])
+                             if n.is_return or (n.kind == 'stmt' and isinstance(
+                                 n.ast, (ast.Break,)))]
+                    if skip is None and not early:
+                        return lp.ast.iter, appends[0].args[0], norm(lp.ast.target)
+            if len(inits) == 0 and len(others) == 1 and not appends and \
+                    isinstance(others[0], ast.Assign):
+                return self.whole_map(func, others[0].value, depth + 1)
+            return None
+        if isinstance(e, ast.Call) and depth < 3:
+            for h in self.callees(func, e):
+                rets = [n for n in walk_own(h.node)
+                        if isinstance(n, ast.Return) and n.value is not None]
+                if not rets:
+                    return None
+                for r in rets:
+                    got = self.whole_map(h, r.value, depth + 1)
+                    if got is None or norm(got[0]) not in h.params:
+                        return None
+                return got
+        return None
+
     def run_rule(self, rule_obj):
         run = RuleRun(rule_obj, self)
         rule_obj.fn(run)
